@@ -96,6 +96,12 @@ Fixpoint content_elem (pb pe : option Q) (e : elem) (ci : option Q * option Q) :
 Definition content_interval (d : doc) : option (Q * option Q) :=
   let ci := fold_left (fun ci r => content_elem None None r ci) (d_regions d) (None, Some 0%Q) in
   let ci := match d_body d with Some b => content_elem None None b ci | None => ci end in
+  (* a document without regions whose initial values set a background colour is never skipped (the default
+     region may show that colour at any time) *)
+  let ci := match d_regions d with
+            | [] => if shas (d_initials d) p_BackgroundColor then (None, Some 0%Q) else ci
+            | _ => ci
+            end in
   match fst ci with None => None | Some c0 => Some (c0, snd ci) end.
 
 Definition doc_times (fixed : bool) (d : doc) : list Q :=
